@@ -145,17 +145,24 @@ def ensure(tier='quick'):
         changed = changed_tree()
         log['sources_differ_from_validated_tree'] = changed
         if changed and tier == 'quick':
-            budget = {t: (secs * 3, forks) for t, (secs, forks) in budget.items()}
-        with ThreadPoolExecutor(max_workers=3) as ex:
-            list(ex.map(lambda t: run_target(bindir, t, os.path.join(root, t), budget[t][0], budget[t][1], log), TARGETS))
-        if changed:
+            budget = {t: (secs * 2, forks) for t, (secs, forks) in budget.items()}
+        nb = {}
+        def build_none():
+            try: nb['dir'] = build('none')
+            except Exception as e: nb['error'] = repr(e)[:200]
+        with ThreadPoolExecutor(max_workers=4) as ex:
+            fs = [ex.submit(run_target, bindir, t, os.path.join(root, t), budget[t][0], budget[t][1], log) for t in TARGETS]
+            if changed: fs.append(ex.submit(build_none))     # built while the first search runs
+            for f in fs: f.result()
+        if changed and 'dir' in nb:
             # the same corpora driven by the coverage of the build without an allocator (its own code paths:
             # nom_noalloc.rs, the heapless conversions)
-            nb = build('none')
             sub = {}
             with ThreadPoolExecutor(max_workers=2) as ex:
-                list(ex.map(lambda t: run_target(nb, t, os.path.join(root, t), max(6, budget[t][0] // 3), 7, sub), ('msg', 'hist')))
+                list(ex.map(lambda t: run_target(nb['dir'], t, os.path.join(root, t), max(6, budget[t][0] // 3), 7, sub), ('msg', 'hist')))
             log['no_allocator_build'] = sub
+        elif changed:
+            log['no_allocator_build'] = nb
         for t in TARGETS:
             if len(os.listdir(os.path.join(root, t))) > CAP[t]:
                 minimise(bindir, t, os.path.join(root, t))
